@@ -20,6 +20,20 @@ import (
 func runC02(c *sim.Ctx) *sim.Violation {
 	t := c.T
 	a := gen.Packet(t, apiCfg(c, true))
+	switch {
+	case c.Run < 9:
+		// PUBLISH packets whose frame is EXACTLY a round number of bytes
+		N := []int{100000, 1 << 17, 250000, 1000000, 1 << 20, 1<<20 + 1, 2000000, 1 << 21, 3000000}[c.Run]
+		pay := N - 5 - ref.VarintLen(uint32(N-5))
+		if 1+ref.VarintLen(uint32(4+pay))+4+pay != N {
+			pay = N - 5 - ref.VarintLen(uint32(4+pay))
+		}
+		a = &ref.AP{Type: ref.Publish, Topic: []byte("t"), Payload: make([]byte, pay)}
+		c.Count("probe.frame-of-exactly-a-round-size")
+	case t.Bool(1, 400):
+		a = gen.BulkMedium(t) // hundreds of 1-2 KiB strings; a will section beyond 64 KiB
+		c.Count("probe.bulk-of-kilobyte-strings")
+	}
 	typ := a.TypeName()
 	p, ops, err := buildGuard(a, t)
 	if err != nil {
